@@ -505,6 +505,18 @@ def rule_core_rows(ctx: Ctx, rep: Report) -> None:
     sp = ctx.func(f"{ENG}._check_script_sig_policy")
     fl = {x.attr for x in own_nodes(sp.node) if isinstance(x, ast.Attribute) and isinstance(x.value, ast.Name) and x.value.id == "ScriptFlag"}
     rep.ob(rule, "SIGPUSHONLY+CONST_SCRIPTCODE", {"SIGPUSHONLY", "CONST_SCRIPTCODE"} <= fl, sp.where(), f"script_sig policy flags consulted: {sorted(fl)}")
+    # IF / NOTIF are one rule: both calls take the same arguments, tapscript's with MINIMALIF as consensus
+    for dialect, modq, want in (("legacy", LEG, "segwit_version"), ("tapscript", TAP, "1")):
+        fi = ctx.func(f"{modq}._run_ops")
+        ci_ = [c for c in own_nodes(fi.node) if isinstance(c, ast.Call) and call_name(c) == "op_if"]
+        cn = [c for c in own_nodes(fi.node) if isinstance(c, ast.Call) and call_name(c) == "op_notif"]
+        ok = len(ci_) == 1 and len(cn) == 1 and [norm(a) for a in ci_[0].args] == [norm(a) for a in cn[0].args] and norm(ci_[0].args[-1]) == want
+        rep.ob(rule, f"MINIMALIF:{dialect}:if==notif", ok, fi.where(), f"op_if{tuple(norm(a) for a in ci_[0].args) if ci_ else ()} / op_notif{tuple(norm(a) for a in cn[0].args) if cn else ()}")
+    # NULLFAIL looks at every signature of the failed check
+    fi = ctx.func(f"{LEG}._run_ops")
+    nfs = [c for c in own_nodes(fi.node) if isinstance(c, ast.Call) and call_name(c) == "assert_nullfail"]
+    args = sorted(norm(c.args[2]) for c in nfs if len(c.args) >= 3)
+    rep.ob(rule, "NULLFAIL:all_signatures", args == ["[signature]", "signatures"], fi.where(), f"assert_nullfail is handed {args} (every signature of the failed CHECKSIG / CHECKMULTISIG)")
     rep.floor(rule, 15)
 
 
@@ -532,6 +544,8 @@ CONTROLS = [
      "edit": lambda ctx: M.drop_if(ctx, f"{TAP}.get_hashtype", lambda n: "not in" in norm(n.test))},
     {"rule": "C08.error_class", "name": "tapscript no longer converts IndexError", "module": TAP,
      "edit": lambda ctx: M.sub_expr(ctx, f"{TAP}.verify_script_path_vc0", lambda n: isinstance(n, ast.ExceptHandler) and "IndexError" in norm(n.type), lambda n: norm(n).replace("IndexError", "KeyError", 1))},
+    {"rule": "C08.core_rows", "name": "tapscript NOTIF loses consensus MINIMALIF", "module": TAP,
+     "edit": lambda ctx: M.sub_expr(ctx, f"{TAP}._run_ops", lambda n: isinstance(n, ast.Call) and call_name(n) == "op_notif", "script_op_codes.op_notif(stack, condition_stack, flags, 0)")},
     {"rule": "C08.core_rows", "name": "p2sh-wrapped witness malleation accepted", "module": ENG,
      "edit": lambda ctx: M.drop_if(ctx, f"{ENG}.verify_input", lambda n: "serialize" in norm(n.test) and "p2sh" in norm(n.test))},
 ]
